@@ -314,8 +314,8 @@ def run(tier, seed):
     bfs("empty/add-remove", [], small_ops, 5 if tier == "quick" else 9, seed, res=res, counters=counters)
     # formulas that are the SMILES of another compound, and non-canonical SMILES written twice
     coll = [("H2O", "O"), ("O", "[O]"), ("CH4O", "CO"), ("CO", "[C-]#[O+]"), ("CH2O2", "C(=O)O"), ("Formic", "C(=O)O"),
-            ("C6H6", "C1=CC=CC=C1"), ("Benzene", "C1=CC=CC=C1")]
-    coll_ops = [("add", f, s2) for f, s2 in coll] + [("remove", f) for f in ("O", "CO", "H2O", "CH2O2", "C6H6")] + \
+            ("C6H6", "C1=CC=CC=C1"), ("Benzene", "C1=CC=CC=C1"), ("Co", "[Co]"), ("HF", "F"), ("Hf", "[Hf]")]
+    coll_ops = [("add", f, s2) for f, s2 in coll] + [("remove", f) for f in ("O", "CO", "H2O", "CH2O2", "C6H6", "Co", "HF", " CO")] + \
                [("bulk", coll[4], coll[5]), ("bulk", coll[6], coll[7]), ("bulk", coll[0], coll[1])]
     bfs("empty/collisions", [], coll_ops, 3 if tier == "quick" else 5, seed, res=res, counters=counters)
     # all HISTORIES (not states) over the small alphabet on single objects
